@@ -49,7 +49,7 @@ def strategy_(g):
     cycles = g.choice([1, 1, 2, 3, 5])
     if src == "text":
         f = GT.gen_file(g, allow_custom=True, allow_junk=g.boolean())
-        return {"src": "text", "file": f, "cycles": cycles, "edits": [g.choice(["none", "none", "offset", "vertex", "measurement", "information"]) for _ in range(cycles)]}
+        return {"src": "text", "file": f, "cycles": cycles, "edits": [g.choice(["none", "none", "offset", "vertex", "measurement", "information"]) for _ in range(cycles)], "keep_object": [g.boolean() for _ in range(cycles)]}
     rnd = g.rnd
     extreme = g.boolean()
     fb = GT.FileBuilder(g)
@@ -99,6 +99,7 @@ def strategy_(g):
             edges.insert(rnd.randrange(len(edges) + 1), _copy.deepcopy(rnd.choice(edges)))
     case = {"src": src, "verts": verts, "edges": edges, "params": {str(k): v for k, v in params.items()}, "registered": g.choice(["all", "all", "none", "some"]), "cycles": cycles, "extreme": extreme}
     case["edits"] = [g.choice(["none", "none", "offset", "vertex", "measurement", "information"]) for _ in range(cycles)]
+    case["keep_object"] = [g.boolean() for _ in range(cycles)]
     if rnd.random() < 0.3:
         case["extra_params2"] = {str(rnd.randint(0, 9)): _vals(g, 2, False) + [g.angle()]}
     if src == "bad":
@@ -310,9 +311,19 @@ def _edit_in_place(g, what, c):
     """Modify one stored array of the graph in place.  Returns True if something was edited."""
     d = 0.5 + 0.25 * c
     if what == "offset":
-        for e in g._edges:
-            if isinstance(e, gs.EdgeLandmark) and isinstance(e.offset, gs.PoseSE3):
-                np.asarray(e.offset)[0] += d
+        for e0 in g._edges:
+            if isinstance(e0, gs.EdgeLandmark) and isinstance(e0.offset, gs.PoseSE3):
+                # change the offset with this id everywhere it is stored (once per distinct object), so that the graph
+                # stays expressible (one offset per id)
+                objs = {}
+                for e in g._edges:
+                    if isinstance(e, gs.EdgeLandmark) and isinstance(e.offset, gs.PoseSE3) and e.offset_id == e0.offset_id:
+                        objs[id(e.offset)] = e.offset
+                par = (g._g2o_params or {}).get(("PARAMS_SE3OFFSET", e0.offset_id))
+                if par is not None:
+                    objs[id(par.value)] = par.value
+                for o in objs.values():
+                    np.asarray(o)[0] += d
                 return True
         return False
     if what == "vertex":
@@ -364,7 +375,9 @@ def check(case, ctx):
         texts = []
         cur = g0
         edited = False
+        from_import = []  # from_import[c]: the graph exported in cycle c is the one imported in cycle c-1
         for c in range(cycles):
+            from_import.append(c >= 1 and not (case.get("keep_object") or [False] * cycles)[c - 1])
             path = os.path.join(tmp, "c%d.g2o" % c)
             ed = (case.get("edits") or ["none"] * cycles)[c]
             if c >= 1 and ed != "none" and not bad:
@@ -394,10 +407,15 @@ def check(case, ctx):
                 return
             if chi2_compare(ctx, cur, nxt, sig + ":chi2"):
                 return
-            if c >= 2 and not edited:
+            if c >= 2 and not edited and from_import[c] and from_import[c - 1]:
                 if files_stable(ctx, texts[c - 1], texts[c]):
                     return
-            cur = nxt
+            # the next cycle exports either the graph that was just imported or - again - the same graph object that has
+            # already been exported (an export must not leave anything behind that a later export would reuse)
+            if not (case.get("keep_object") or [False] * cycles)[c]:
+                cur = nxt
+            else:
+                ctx.event("same-object-exported-again")
         if bad:
             ctx.event("written-and-equal:" + bad)
     finally:
